@@ -85,6 +85,11 @@ def _trend(*p):
     return 0.5 * p[0]
 
 
+def _coord(*p):
+    """A legal user callable that returns one of its coordinate arguments unchanged (a view of the positions)."""
+    return p[0]
+
+
 # ---------------------------------------------------------------------------
 # entry table: entry -> dict(roles={role: base array factory(opts)}, opts=[...], inplace=[...], call=f(gs, args, opts))
 
@@ -140,7 +145,7 @@ def _krige(gs, a, o):
     if "ext_drift" in a:
         return gs.krige.ExtDrift(model, a["cond_pos"], a["cond_val"], a["ext_drift"], **kw)
     if "simple" in o:
-        return gs.krige.Simple(model, a["cond_pos"], a["cond_val"], mean=2.0, **kw)
+        return gs.krige.Simple(model, a["cond_pos"], a["cond_val"], mean=_coord if "coord_mean" in o else 2.0, **kw)
     return gs.krige.Ordinary(model, a["cond_pos"], a["cond_val"], **kw)
 
 
@@ -156,6 +161,17 @@ def e_krige_setcond(gs, a, o):
     return k
 
 
+HELD = []
+
+
+def hold(label, arr):
+    """Register a result the caller keeps; run_cell verifies it is unchanged at the end of the cell."""
+    for i, x in enumerate(arr if isinstance(arr, (tuple, list)) else [arr]):
+        if isinstance(x, np.ndarray):
+            HELD.append(("%s[%d]" % (label, i), x, x.tobytes()))
+    return arr
+
+
 def e_krige_call(gs, a, o):
     b = {"cond_pos": base_pos(), "cond_val": base_field()}
     if "ext_drift_t" in a:
@@ -168,9 +184,19 @@ def e_krige_call(gs, a, o):
         kw["chunk_size"] = 5
     if "only_mean" in o:
         kw["only_mean"] = True
+    if "raw" in o:
+        kw["post_process"] = False
+    # two evaluations on equally sized meshes: the first result must survive the second call
     if "structured" in o:
-        return k((a["gx"], a["gy"]), mesh_type="structured", **kw)
-    return k(a["tpos"], **kw)
+        hold("first kriging result", k((a["gx"], a["gy"]), mesh_type="structured", **kw))
+        kw2 = dict(kw, ext_drift=np.asarray(kw["ext_drift"], dtype=float)[::-1].copy()) if "ext_drift" in kw else kw
+        return k((np.asarray(a["gx"], dtype=float) + 0.5, a["gy"]), mesh_type="structured", store=["f2", "v2"], **kw2)
+    hold("first kriging result", k(a["tpos"], **kw))
+    kw2 = dict(kw, ext_drift=np.asarray(kw["ext_drift"], dtype=float)[::-1].copy()) if "ext_drift" in kw else kw
+    out = k(np.asarray(a["tpos"], dtype=float) + 0.25, store=["f2", "v2"], **kw2)
+    if "ext_drift" not in kw:
+        k(only_mean=True, store="m2")
+    return out
 
 
 def _llt_model(gs):
@@ -191,6 +217,8 @@ def _srf(gs, o):
         kw["trend"] = _trend
     if "mean" in o:
         kw["mean"] = 2.0
+    if "coord_mean" in o:
+        kw["mean"] = _coord
     if "normalizer" in o:
         kw["normalizer"] = gs.normalizer.LogNormal()
     return gs.SRF(model, seed=3, mode_no=8, **kw)
@@ -205,8 +233,12 @@ def e_srf_call(gs, a, o):
     if "latlon_temporal" in o:
         return s(a["lltpos"], **kw)
     if "structured" in o:
-        return s((a["gx"], a["gy"]), mesh_type="structured", **kw)
-    return s(a["tpos"], **kw)
+        hold("first field", s((a["gx"], a["gy"]), mesh_type="structured", **kw))
+        return s((np.asarray(a["gx"], dtype=float) + 0.5, a["gy"]), mesh_type="structured", seed=9, store="f2", **kw)
+    hold("first field", s(a["tpos"], **kw))
+    t2 = np.asarray(a["tpos"], dtype=float)
+    hold("second field (raw)", s(t2 + 0.25, seed=9, store="f2", post_process=False, **kw))
+    return s(t2 + 0.5, seed=10, store=False, **kw)
 
 
 def e_llt_krige(gs, a, o):
@@ -240,6 +272,8 @@ def e_field_call(gs, a, o):
         kw["trend"] = _trend
     if "mean" in o:
         kw["mean"] = 2.0
+    if "coord_mean" in o:
+        kw["mean"] = _coord
     if "normalizer" in o:
         kw["normalizer"] = gs.normalizer.LogNormal()
     f = gs.field.Field(dim=2, **kw)
@@ -261,7 +295,8 @@ def e_normalizer(gs, a, o):
 
 
 def e_apply_mnt(gs, a, o):
-    kw = dict(mean=2.0 if "mean" in o else None, trend=_trend if "trend" in o else None,
+    kw = dict(mean=(_coord if "coord_mean" in o else 2.0) if ("mean" in o or "coord_mean" in o) else None,
+              trend=_trend if "trend" in o else None,
               normalizer=gs.normalizer.LogNormal() if "normalizer" in o else None)
     if "stacked" in o:
         return gs.normalizer.apply_mean_norm_trend(a["tpos"], a["fields"], stacked=True, **kw)
@@ -362,25 +397,26 @@ ENTRIES = {
     "krige_call": dict(
         roles={"tpos": lambda o: base_pos() + 0.3, "gx": lambda o: grid_x(), "gy": lambda o: grid_y(),
                "ext_drift_t": lambda o: (np.arange(12.0) if "structured" in o else base_field() * 0.2)},
-        opts=["structured", "chunk", "only_mean", "trend", "normalizer", "simple"],
-        inplace=["trend", "normalizer", "simple"], call=e_krige_call),
+        opts=["structured", "chunk", "only_mean", "trend", "normalizer", "simple", "coord_mean", "raw"],
+        inplace=["trend", "normalizer", "simple", "coord_mean", "raw"], call=e_krige_call),
     "latlon_temporal": dict(
         roles={"lltpos": lambda o: base_llt_pos(), "cond_llt": lambda o: base_llt_pos() + 0.5}, opts=["condsrf"], inplace=["condsrf"],
         call=e_llt_krige),
     "srf_call": dict(
         roles={"tpos": lambda o: base_pos() + 0.3, "gx": lambda o: grid_x(), "gy": lambda o: grid_y(), "lltpos": lambda o: base_llt_pos(),
                "point_volumes": lambda o: (np.full(12, 0.5) if "structured" in o else np.full(N, 0.5))},
-        opts=["structured", "trend", "mean", "normalizer", "nugget", "latlon_temporal"], inplace=["trend", "mean", "normalizer", "latlon_temporal"], call=e_srf_call),
+        opts=["structured", "trend", "mean", "normalizer", "nugget", "latlon_temporal", "coord_mean"],
+        inplace=["trend", "mean", "normalizer", "latlon_temporal", "coord_mean"], call=e_srf_call),
     "condsrf_call": dict(
         roles={"tpos": lambda o: base_pos() + 0.3, "gx": lambda o: grid_x(), "gy": lambda o: grid_y()},
         opts=["structured", "trend", "normalizer", "simple", "no_process"], inplace=["trend", "normalizer", "simple", "no_process"], call=e_condsrf_call),
     "field_call": dict(
         roles={"tpos": lambda o: base_pos(), "field": lambda o: base_field()},
-        opts=["trend", "mean", "normalizer", "no_process"], inplace=["trend", "mean", "normalizer"], call=e_field_call),
+        opts=["trend", "mean", "normalizer", "no_process", "coord_mean"], inplace=["trend", "mean", "normalizer", "coord_mean"], call=e_field_call),
     "normalizer_methods": dict(roles={"data": lambda o: np.abs(base_field()) + 0.5}, opts=["fit"], inplace=["fit"], call=e_normalizer),
     "apply_mean_norm_trend": dict(
         roles={"tpos": lambda o: base_pos(), "field": lambda o: base_field(), "fields": lambda o: base_field(2)},
-        opts=["mean", "trend", "normalizer", "stacked"], inplace=["mean", "trend", "normalizer"], call=e_apply_mnt),
+        opts=["mean", "trend", "normalizer", "stacked", "coord_mean"], inplace=["mean", "trend", "normalizer", "coord_mean"], call=e_apply_mnt),
     "remove_trend_norm_mean": dict(
         roles={"tpos": lambda o: base_pos(), "field": lambda o: base_field() + 5, "fields": lambda o: base_field(2) + 5},
         opts=["mean", "trend", "normalizer", "stacked", "fit_normalizer"], inplace=["mean", "trend", "normalizer", "fit_normalizer"],
@@ -389,7 +425,7 @@ ENTRIES = {
         roles={"x_data": lambda o: (np.array([100.0, 300, 600, 1000, 1500]) if "latlon" in o else np.array([0.5, 1.0, 2.0, 3.0, 5.0])),
                "y_data": lambda o: np.array([0.2, 0.4, 0.7, 0.85, 0.98]),
                "y_data2": lambda o: np.array([[0.2, 0.4, 0.7, 0.85, 0.98], [0.3, 0.5, 0.8, 0.9, 0.99]]),
-               "weights": lambda o: np.array([1.0, 1.0, 0.5, 0.5, 0.25])},
+               "weights": lambda o: np.array([1.0, 1.0, 0.5, 0.0, 0.25])},  # an exact zero weight is legal
         opts=["directional", "sill", "latlon"], inplace=["directional", "sill", "latlon"], call=e_fit_variogram),
     "array_transforms": dict(roles={"field": lambda o: base_field()}, opts=[], inplace=[], call=e_array_transforms),
     "model_functions": dict(
@@ -428,6 +464,10 @@ def role_applicable(entry, role, layout, opts):
         return False
     if role == "field" and "stacked" in opts:
         return False
+    if "coord_mean" in opts and ("mean" in opts or "normalizer" in opts
+                                 or (entry in ("krige_call", "krige_init") and "simple" not in opts)
+                                 or (entry in ("srf_call", "krige_call") and "structured" in opts and False)):
+        return False   # coord_mean replaces the constant mean; keep the identity normalizer so that the mean is not log-transformed
     if role == "ext_drift" and "simple" in opts:
         return False
     if role == "ext_drift_t" and "simple" in opts:
@@ -482,6 +522,7 @@ def run_cell(gs, cell):
     entry, role, layout, opts = cell["entry"], cell["role"], cell["layout"], set(cell["opts"])
     e = ENTRIES[entry]
     args = {}
+    del HELD[:]
     for r, fac in e["roles"].items():
         if r != role and not role_applicable(entry, r, "f64c", opts):
             continue
@@ -497,6 +538,9 @@ def run_cell(gs, cell):
     bad = mon.altered()
     if bad:
         return ("stored:" + bad, "a result stored during the call was altered after it had been stored")
+    for label, arr, snap in HELD:
+        if arr.tobytes() != snap:
+            return ("returned:" + label.split("[")[0], "a result returned by an earlier call was altered by a later call")
     for r, a in args.items():
         if a.changed():
             return (r, "contents changed")
